@@ -525,6 +525,11 @@ def run_readonly(case, ob, site):
     io_before = sorted((w.name, w.bitwidth, type(w).__name__) for w in block.wirevector_subset((pyrtl.Input, pyrtl.Output)))
     tr = concrete_trace(block) if call in ('testbench', 'print_trace', 'print_vcd') else None
     buf = io.StringIO()
+    decoy = None
+    if case.get('wb') == 'foreign':      # the block is passed as block= while an unrelated block is the working block
+        decoy = c11.decoy_block()
+        pyrtl.set_working_block(decoy, no_sanity_check=True)
+        fpd = c11.fingerprint(decoy)
     try:
         with contextlib.redirect_stdout(io.StringIO()):
             if call in ('verilog', 'testbench', 'firrtl', 'trivialgraph', 'graphviz'):
@@ -549,6 +554,9 @@ def run_readonly(case, ob, site):
         if call in ('svg', 'graphviz') and 'graphviz' in str(e).lower():
             return ob.fact('skipped-no-graphviz', True)
         return ob.fact('call-accepts-design', False, site + ':raises', detail='%s: %s' % (type(e).__name__, e))
+    if decoy is not None:
+        ob.fact('unrelated-working-block-untouched', c11.fingerprint(decoy) == fpd, site + ':foreign-working-block')
+        pyrtl.set_working_block(block, no_sanity_check=True)
     if call != 'firrtl':
         ob.fact('block-fingerprint-unchanged', c11.fingerprint(block) == fp0, site + ':fingerprint')
     io_after = sorted((w.name, w.bitwidth, type(w).__name__) for w in block.wirevector_subset((pyrtl.Input, pyrtl.Output)))
@@ -631,7 +639,7 @@ def cases(tier, seed):
         for call in dict.fromkeys(calls):
             if call == 'firrtl' and (c['fam'] == 'SEQ' and 'mem' in c['kind'] or c['fam'] == 'MISC' and 'mem' in c['kind']):
                 continue
-            out.append(dict(c, k='readonly', call=call))
+            out.append(dict(c, k='readonly', call=call, wb='foreign' if (i + len(out)) % 2 else 'same'))
     return out
 
 
